@@ -147,6 +147,16 @@ pub fn eval_text(case: &TextCase, st: &mut Stats) -> Result<(), String> {
                     format_hash(p.log, &p.bh1, &p.bh2)
                 };
                 let h = must("from_bytes", || <$ty>::from_bytes(text))?.map_err(|e| format!("{} rejects {:?}: {:?}", stringify!($ty), show, e))?;
+                // the by-index form reports where the hash part ends: the text up to there is what round-trips
+                let mut index = usize::MAX;
+                let h2 = must("from_bytes_with_last_index", || <$ty>::from_bytes_with_last_index(text, &mut index))?
+                    .map_err(|e| format!("{}::from_bytes_with_last_index rejects {:?}: {:?}", stringify!($ty), show, e))?;
+                ensure!(h2.full_eq(&h), "{}: from_bytes_with_last_index gives another object than from_bytes for {:?}", stringify!($ty), show);
+                ensure_eq!(index, p.end, "{}: reported end of the hash part of {:?}", stringify!($ty), show);
+                if let Ok(s) = std::str::from_utf8(text) {
+                    let h3 = must("str::parse", || s.parse::<$ty>())?.map_err(|e| format!("{} (FromStr) rejects {:?}: {:?}", stringify!($ty), show, e))?;
+                    ensure!(h3.full_eq(&h), "{}: str::parse gives another object than from_bytes for {:?}", stringify!($ty), show);
+                }
                 let t = must("to_string", || h.to_string())?;
                 ensure_eq!(t, exp, "{}: text -> object -> text of {:?}", stringify!($ty), show);
                 ensure_eq!(must("len_in_str", || h.len_in_str())?, exp.len(), "{}: len_in_str() for {:?}", stringify!($ty), show);
@@ -158,6 +168,11 @@ pub fn eval_text(case: &TextCase, st: &mut Stats) -> Result<(), String> {
                 if p.bh1.len() > 64 || p.bh2.len() > $cap2 {
                     st.class("accepted_with_raw_beyond_capacity");
                 }
+            } else if let Ok(s) = std::str::from_utf8(text) {
+                // a text outside the grammar must not be accepted by the trait form either (it could not round-trip)
+                let a = must("from_bytes", || <$ty>::from_bytes(text))?.is_ok();
+                let b = must("str::parse", || s.parse::<$ty>())?.is_ok();
+                ensure!(!a && !b, "{} accepts {:?} (from_bytes: {}, str::parse: {}) although it is outside the grammar and cannot round-trip", stringify!($ty), show, a, b);
             }
         }};
     }
